@@ -13,7 +13,7 @@ ROOTS = (T + "timezone::TimeZone::from_tz_data", T + "timezone::TimeZone::from_p
 def run(chk, tier):
     P = Prog("default")
     chk.configs.add("default")
-    for r in (r_absint, r_block_order, r_header_order, r_header_counts, r_tz_string_consumed, r_rule_boxes, r_validate, r_validate_cover, r_record_layout, r_offset_sign, r_data_indices, r_ltt_box, r_footer, r_capacity, r_header_consts):
+    for r in (r_absint, r_block_order, r_header_order, r_header_counts, r_tz_string_consumed, r_hms_weights, r_rule_boxes, r_validate, r_validate_cover, r_record_layout, r_offset_sign, r_data_indices, r_ltt_box, r_footer, r_capacity, r_header_consts):
         chk.guarded(r, P, tier)
     chk.assume("that every conforming file is accepted and decoded to exactly the written transitions/types/rule is not decided (value-level)")
     return {
@@ -645,3 +645,45 @@ def r_tz_string_consumed(chk, P, tier):
             raise AnchorLost("from_tz_string: no Ok path of the %s form" % shape)
         chk.expect(all(kinds[shape]), shape, "from_tz_string returns Ok for the %s form on %d of %d paths without having found the cursor empty after the last parsing step (trailing data accepted)" % (
             shape, kinds[shape].count(False), len(kinds[shape])), loc=P.loc(fn))
+
+
+def r_hms_weights(chk, P, tier):
+    """hh[:mm[:ss]] of a TZ rule is hours * 3600 + minutes * 60 + seconds with the components in the order the scanner returns them: in parse_offset, parse_rule_time and
+    parse_rule_time_extended the returned value is a linear form over the fields of the scanned tuple with weights 3600 / 60 / 1 on (hour, minute, second) = the last three
+    tuple fields in order (the signed scanner puts the sign first)"""
+    chk.rule("SHAPE.hms_weights", "parse_offset / parse_rule_time / parse_rule_time_extended weigh the scanned (hour, minute, second) with 3600 / 60 / 1 in that order", floor=3)
+
+    def lin(t):
+        """{tuple field index: coefficient} of a term over the fields of one scanned tuple, ignoring a multiplication by the sign field"""
+        if t[0] == "field" and t[2] == 0 and t[1][0] == "bin" and t[1][1].endswith("WithOverflow"):
+            t = ("bin", t[1][1][:-12], t[1][2], t[1][3])
+        if t[0] in ("const", "named") and isinstance(const_of(t), int):
+            return ({}, const_of(t))
+        if t[0] == "field" and t[1][0] == "field" and t[1][2] == 0 and t[1][1][0] == "as":
+            return ({t[2]: 1}, 0)         # ((branch(..) as Continue).0).k
+        if t[0] == "bin" and t[1] in ("Add", "Mul"):
+            a, b = lin(t[2]), lin(t[3])
+            if a is None or b is None:
+                return None
+            if t[1] == "Add":
+                d = dict(a[0])
+                for k, v in b[0].items():
+                    d[k] = d.get(k, 0) + v
+                return (d, a[1] + b[1])
+            if not a[0]:
+                return ({k: v * a[1] for k, v in b[0].items()}, a[1] * b[1])
+            if not b[0]:
+                return ({k: v * b[1] for k, v in a[0].items()}, a[1] * b[1])
+            # sign * (linear form): the sign is the single field with coefficient 1 on one side
+            for x, y in ((a, b), (b, a)):
+                if len(x[0]) == 1 and list(x[0].values()) == [1] and x[1] == 0 and list(x[0])[0] == 0:
+                    return (dict(y[0]), y[1])
+        return None
+    for fn, first in (("parse_offset", 1), ("parse_rule_time", 0), ("parse_rule_time_extended", 1)):
+        f = T + "rule::" + fn
+        oks = [p.ret[4][0] for p in Sym(P, f).paths() if p.end[0] == "return" and result_variant(p.ret)[0] == "Ok"]
+        if not oks:
+            raise AnchorLost(fn + ": no Ok path")
+        forms = {repr(lin(t)) for t in oks}
+        want = ({first: 3600, first + 1: 60, first + 2: 1}, 0)
+        chk.expect(forms == {repr(want)}, fn, "%s returns %s over the scanned tuple's fields (expected {hour: 3600, minute: 60, second: 1} = %s)" % (fn, sorted(forms), want), loc=P.loc(f))
